@@ -774,18 +774,76 @@ Qed.
 Theorem convert_range dst v : intlike dst = true -> c_in_range dst (c_convert dst v).
 Proof. apply c_convert_range. Qed.
 
-(* ------------------------------------------------------------------ what is NOT maintained: sub-int to float *)
-(* convert(float|double <- 1- or 2-byte integer) emits swtof/uwtof on the unextended register: two registers
-   that represent the same C value give different results whenever the conversion distinguishes 300 from 44. *)
-Theorem convert_subint_float_not_invariant :
-  forall fo : fops,
-  wrapk Ks (f_cvt fo Cswtof false 300) <> wrapk Ks (f_cvt fo Cswtof false 44) ->
-  exists x1 x2 v, repr (SInt I1 true) v x1 /\ repr (SInt I1 true) v x2 /\ c_in_range (SInt I1 true) v /\
-    convert_steps SFlt (SInt I1 true) = [step1 (Ocvt Cswtof) Ks] /\
-    eval_pure fo (PM.add 1%positive (Kw, x1) (PM.empty _)) (Ocvt Cswtof) Ks (RTmp 1%positive) None <>
-    eval_pure fo (PM.add 1%positive (Kw, x2) (PM.empty _)) (Ocvt Cswtof) Ks (RTmp 1%positive) None.
+(* ------------------------------------------------------------------ integer to floating point *)
+(* Floating-point arithmetic is a parameter of the IL semantics ([fops]); what can be stated without it is that the
+   conversion instruction is applied to the operand's two's complement pattern in a whole word, whatever the bits
+   above a 1- or 2-byte value were: the result is a function of the C value alone.  (Before the fix of
+   subint-to-float-unextended the sequence for a char/short source had no extension and this statement was false.) *)
+Definition cvt_of (src : sty) : cvt :=
+  let src := pnorm src in
+  if ssigned src then (if ssize src =? 8 then Csltof else Cswtof) else (if ssize src =? 8 then Cultof else Cuwtof).
+Definition word_of (src : sty) (v : Z) : Z := wrapk (if ssize src =? 8 then Kl else Kw) v.
+
+Lemma eval_wtof fo env c k a x :
+  c = Cswtof \/ c = Cuwtof -> read env Kw a = Ok x -> isint k = false ->
+  eval_pure fo env (Ocvt c) k a None = Ok (wrapk k (f_cvt fo c (wide k) x)).
+Proof. intros [-> | ->] R I; unfold eval_pure; rewrite R; cbn [bind]; rewrite I; reflexivity. Qed.
+
+Lemma eval_ltof fo env c k a x :
+  c = Csltof \/ c = Cultof -> read env Kl a = Ok x -> isint k = false ->
+  eval_pure fo env (Ocvt c) k a None = Ok (wrapk k (f_cvt fo c (wide k) x)).
+Proof. intros [-> | ->] R I; unfold eval_pure; rewrite R; cbn [bind]; rewrite I; reflexivity. Qed.
+
+Lemma full_exact t v x : sbits t = bitsk (qbase t) -> repr t v x -> 0 <= x < modk (qbase t) -> x = wrapk (qbase t) v.
 Proof.
-  intros fo H. exists 300, 44, 44.
-  split; [reflexivity|]. split; [reflexivity|]. split; [cbv; split; congruence|]. split; [reflexivity|].
-  unfold eval_pure. rewrite !read_gss. cbn [bind cls_eqb isint negb]. intros [= E]. exact (H E).
+  intros B E R. rewrite wrapk_wrap, <- B. unfold repr in E. rewrite <- E. symmetry. apply wrap_id.
+  rewrite B, <- modk_pow. exact R.
 Qed.
+
+Theorem convert_int_float_exact fo dst src env m l n x v :
+  sfloat dst = true -> intlike src = true -> ref_lt n l ->
+  read env (qbase src) l = Ok x -> 0 <= x < modk (qbase src) ->
+  repr src v x -> c_in_range src v ->
+  exists env' x',
+    exec fo (env, m) (snd (fst (convert dst src l n))) = Ok (env', m) /\
+    read env' (qbase dst) (fst (fst (convert dst src l n))) = Ok x' /\
+    0 <= x' < modk (qbase dst) /\
+    x' = wrapk (qbase dst) (f_cvt fo (cvt_of src) (wide (qbase dst)) (word_of src v)) /\
+    agree_below n env env' /\
+    ref_lt (snd (convert dst src l n)) (fst (fst (convert dst src l n))) /\
+    (n <= snd (convert dst src l n))%positive.
+Proof.
+  intros FD IS Ll R Rx E Rv.
+  destruct dst; try discriminate; destruct src as [[] []| | | |]; try discriminate;
+    unfold cvt_of, word_of; conv_cbn.
+  all: match goal with
+  | |- context [exec _ _ (cons (Iop (Some (_, Kw)) (Oext ?e) _ None) (cons (Iop (Some (_, ?kk)) (Ocvt ?c) _ None) nil))] =>
+      let t := match type of E with repr ?t _ _ => t end in
+      eapply (two_inst fo env m n Kw (Oext e) l None (ext_val e Kw x) kk (Ocvt c) None
+                (wrapk kk (f_cvt fo c (wide kk) (ext_val e Kw x))) (fun z => z = wrapk kk (f_cvt fo c (wide kk) (wrapk Kw v))));
+      [ exact I
+      | apply eval_ext; [exact R|reflexivity|exact I]
+      | exact I
+      | apply eval_wtof; [first [left; reflexivity|right; reflexivity]|apply read_gss|reflexivity]
+      | apply wrapk_range
+      | do 3 f_equal;
+        first [ apply (ext_signed_val t v x Kw e eq_refl Rv E); reflexivity
+              | refine (ext_unsigned_val t v x Kw eq_refl Rv E _); cbv; congruence ] ]
+  | |- context [exec _ _ (cons (Iop (Some (_, ?kk)) (Ocvt ?c) _ None) nil)] =>
+      let t := match type of E with repr ?t _ _ => t end in
+      eapply (one_inst fo env m n kk (Ocvt c) l None (wrapk kk (f_cvt fo c (wide kk) x))
+                (fun z => z = wrapk kk (f_cvt fo c (wide kk) (wrapk (qbase t) v))));
+      [ exact I
+      | first [ apply eval_wtof; [first [left; reflexivity|right; reflexivity]|exact R|reflexivity]
+              | apply eval_ltof; [first [left; reflexivity|right; reflexivity]|exact R|reflexivity] ]
+      | apply wrapk_range
+      | do 3 f_equal; apply (full_exact t v x eq_refl E Rx) ]
+  end.
+Qed.
+
+Example convert_subint_float_example :
+  convert_steps SFlt (SInt I1 true) = [step1 (Oext Esb) Kw; step1 (Ocvt Cswtof) Ks] /\
+  convert_steps SDbl (SInt I2 false) = [step1 (Oext Euh) Kw; step1 (Ocvt Cuwtof) Kd] /\
+  convert_steps SDbl (SInt I4 true) = [step1 (Ocvt Cswtof) Kd] /\
+  repr (SInt I1 true) 44 300 /\ word_of (SInt I1 true) 44 = 44.
+Proof. repeat split; reflexivity. Qed.
